@@ -76,6 +76,7 @@ class Bench:
         self.msgs_since = {}
         self.cancelled = set()
         self.finished_at = {}
+        self.oneshots = {}        # type -> one-shot user subscribers still registered (not part of any call)
         self.base_handlers = {k: len(v) for k, v in self.conn._message_handlers.items()}
 
     def now_ticks(self):
@@ -113,7 +114,8 @@ class Bench:
         conn = self.conn
         closed = conn.connection_state is ac.CONNECTION_STATE_CLOSED
         cs = " ".join(f"{i}={self.status(i)}" for i in sorted(self.tasks))
-        regs = " ".join(f"{t}:{len(conn._message_handlers.get(TY[t], ())) - self.base_handlers.get(TY[t], 0)}" for t in watch)
+        regs = " ".join(f"{t}:{len(conn._message_handlers.get(TY[t], ())) - self.base_handlers.get(TY[t], 0) - self.oneshots.get(t, 0)}"
+                        for t in watch)
         waiters = len(conn._read_exception_futures)
         timers = sum(1 for _, lab in self.loop.armed_timers() if "handle_timeout" in lab)
         # a due timer moved to the ready queue by the clock jump is still armed until its handle runs
@@ -211,12 +213,31 @@ def run_scenario(defs, ops, watch):
             if was_closed:
                 continue
             _, t, tag = op
-            if net.send(TY[t](key=tag)) == "skipped":
+            r_ = net.send(TY[t](key=tag))
+            if r_ == "skipped":
                 continue  # the transport is already closing (a reset is queued): the bytes never reach the protocol
+            if r_.startswith("raised:") and not any(k == "delivery-raised" for k, _ in bad):
+                bad.append(("delivery-raised", f"delivering a well-formed message of type {t} while calls were waiting made data_received raise "
+                                               f"{r_[7:]}: the calls waiting for it are disturbed (the transport is lost)"))
             for i, tk in b.tasks.items():
                 if not tk.done():
                     b.msgs_since[i].append((t, tag))
             emit(f"rq.msg {t} {tag}")
+        elif op[0] == "oneshot":
+            # another user of the connection: a subscriber on the same message type that unsubscribes ITSELF from inside its
+            # callback, while calls are waiting for that type - "concurrent calls do not disturb each other" includes it
+            if was_closed:
+                continue
+            t = op[1]
+            holder = {}
+
+            def once(msg, holder=holder, t=t):
+                holder["remove"]()
+                b.oneshots[t] -= 1
+
+            holder["remove"] = conn.add_message_callback(once, (TY[t],))
+            b.oneshots[t] = b.oneshots.get(t, 0) + 1
+            emit("rq.nop")
         elif op[0] == "cancel":
             i = op[1]
             tk = b.tasks.get(i)
@@ -286,7 +307,7 @@ def run_scenario(defs, ops, watch):
             pass  # a cancel that lands after the coroutine already returned is not a cancel of the call
     all_done = all(tk.done() for tk in b.tasks.values())
     if all_done:
-        leftover = {t: len(conn._message_handlers.get(TY[t], ())) - b.base_handlers.get(TY[t], 0) for t in watch}
+        leftover = {t: len(conn._message_handlers.get(TY[t], ())) - b.base_handlers.get(TY[t], 0) - b.oneshots.get(t, 0) for t in watch}
         timers = sum(1 for _, lab in loop.armed_timers() if "handle_timeout" in lab)
         if any(leftover.values()) or len(conn._read_exception_futures) or timers:
             bad.append(("leak", f"all calls ended but handlers={leftover} waiters={len(conn._read_exception_futures)} "
@@ -342,7 +363,7 @@ def gen(ck: Check):
                 if len(pending_calls) <= ncalls // 2 and not any(o[0] == "close" for o in ops):
                     ops.append(("close", rng.choice(["force", "eof", "garbage", "reset", "peer"])))
             elif r < 0.985:
-                ops.append(("write", rng.choice([0, 1])))
+                ops.append(("write", rng.choice([0, 1])) if rng.random() < 0.5 else ("oneshot", rng.choice([21, 25, 26])))
             else:
                 ops.append(("step",))
         for c in pending_calls:
